@@ -248,6 +248,7 @@ def main():
         "expression shapes are enumerated by a seeded generator, not by the solver",
         "sympy construction/printing and the IR reader are trusted; any sat model is replayed on the sympy trees with exact arithmetic",
         "len/targets/assumptions/merge conjuncts are direct comparisons on the single concrete output",
+        "merge conjunct: the two alpha-equivalent terms differ by a rational factor (with an irrational ratio, e.g. sqrt(2) X_ij Y_j - X_ik Y_k, the sum is not a single term of an expanded sympy expression; the library leaves two terms, value unchanged - outside the merge conjunct)",
     ]
     sys.exit(run.finish())
 
